@@ -13,7 +13,7 @@
    state only) is a property of the code's structure that the thread runs of harness/props/c09.py test; GIL
    scheduling itself cannot be exhibited by the model.  A nested checked call is an ordinary call inside the body
    oracle: it has its own context by construction of [run_call]. *)
-From DL Require Import Base Lexer Parser Eval Shape Dtypes Check Context Hints Call World WorldProofs.
+From DL Require Import Base Lexer Parser Eval Shape Dtypes Check Context Hints Call World WorldProofs Lazy LazyProofs.
 
 Theorem C09_history_isolated : forall h w,
   run_history current w h =
@@ -50,5 +50,28 @@ Example C09_legacy_provider_dict_refuted :
   providers (fst (run_history current w0 [CallOp f_prov [("x", arr2 [2;3]%Z)]])) = [("P", [])].
 Proof. vm_compute. repeat split; reflexivity. Qed.
 
+(* ---- hints resolved at the first call (forward references) ---- *)
+(* kept per function, as the code does: every call of every history has the outcome it has with hints resolved at decoration
+   time, whichever sibling is called first (and C09_history_isolated says what that outcome is) *)
+Theorem C09_lazy_resolution_is_eager : forall fns h w, names_agree fns h ->
+  snd (lrun PerFunction {| lw := w; cells := [] |} h) = snd (run_history current w (map eager_op h)).
+Proof.
+  intros fns h w Hn. assert (Hc: cells_ok fns (aliases w) []) by (intros n wr H; discriminate H).
+  exact (proj1 (lazy_is_eager fns h {| lw := w; cells := [] |} Hn Hc)).
+Qed.
+(* kept per decorator object (one `checked = dltyped()` applied to two functions): the sibling called first decides *)
+Definition T_c : annot :=
+  match parse_shape "c" with Ok ty => {| a_ty := ty; a_dtypes := []; a_opt := false |} | Err _ => {| a_ty := scalar_type; a_dtypes := []; a_opt := false |} end.
+Definition w_lazy : world := {| aliases := [("T", T_ab); ("U", T_c)]; providers := [] |}.
+Definition area : lfn := {| l_name := "area"; l_deco := "checked"; l_fn := {| wf_params := [("x", "T", false)]; wf_provider := None |} |}.
+Definition norm : lfn := {| l_name := "norm"; l_deco := "checked"; l_fn := {| wf_params := [("v", "U", false)]; wf_provider := None |} |}.
+Example C09_per_decorator_cell_refuted :
+  snd (lrun PerDecorator {| lw := w_lazy; cells := [] |} [LCall norm [("v", arr2 [3]%Z)]; LCall area [("x", arr2 [7]%Z)]])
+    = [Some (CReturned VNone); Some (CCrashed (KeyErr "v"))] /\
+  snd (lrun PerFunction {| lw := w_lazy; cells := [] |} [LCall norm [("v", arr2 [3]%Z)]; LCall area [("x", arr2 [7]%Z)]])
+    = [Some (CReturned VNone); Some (CRejected (ENDims "x" 2 1))].
+Proof. vm_compute. split; reflexivity. Qed.
+
 Redirect "C09.assumptions.1" Print Assumptions C09_history_isolated.
+Redirect "C09.assumptions.3" Print Assumptions C09_lazy_resolution_is_eager.
 Redirect "C09.assumptions.2" Print Assumptions C09_calls_commute.
